@@ -93,7 +93,7 @@ impl expr::Expr
 				let lhs_size = lhs.get_static_size(provider)?;
 				let rhs_size = rhs.get_static_size(provider)?;
 
-				Some(lhs_size + rhs_size)
+				lhs_size.checked_add(rhs_size)
 			}
 
 			expr::Expr::BinaryOp(..) => None,
